@@ -56,8 +56,8 @@ Profile profile_for(const std::string &c) {
         set(p.w_script, {{SRC, 36}, {SUBS, 12}, {LIFE, 10}, {CTX, 8}, {MSG, 8}});
         p.mod_flag_bits = 0; p.src_kinds = 127; p.src_flag_bits = 1 | 2 | 4; p.sub_flag_bits = 1 | 2 | 4 | 16 | 32; p.bad_params = true; p.bad_topics = true;
     } else if (c == "C13") {
-        set(p.w_driver, {{BATCH, 24}, {MSG, 36}, {SUBS, 16}, {SRC, 8}, {ENV, 8}, {LIFE, 10}});
-        set(p.w_script, {{BATCH, 16}, {MSG, 36}, {LIFE, 8}, {CTX, 8}, {ENV, 6}});
+        set(p.w_driver, {{BATCH, 24}, {MSG, 36}, {SUBS, 16}, {SRC, 8}, {ENV, 8}, {LIFE, 10}, {TB, 3}});   // (a token bucket brings another internal timer next to the batch timer)
+        set(p.w_script, {{BATCH, 16}, {MSG, 36}, {LIFE, 8}, {CTX, 8}, {ENV, 6}, {TB, 1}});
         p.mod_flag_bits = 0; p.src_kinds = 1 | 2; p.src_flag_bits = 0; p.sub_flag_bits = 16 | 32 | 64;
     } else if (c == "C15") {
         set(p.w_driver, {{REG, 24}, {LIFE, 20}, {MSG, 20}, {SUBS, 14}, {CTX, 10}});
@@ -187,7 +187,13 @@ struct Gen {
                 if (camp != "C04" && where.find(".stop.") != std::string::npos) { p.add(where, "src_sgn", {rmod(), (long)r.below(4), fl}); break; }
                 // (outside C04 a task source is not deregistered by hand either: its thread may be running - same known finding)
                 p.add(where, reg || r.chance(0.7) || camp != "C04" ? "src_task" : "unsrc_task", {rmod(), (long)r.below(4), (long)r.below(5) * (long)r.below(2000), (long)r.below(100), fl, bad ? 1 : 0}); break;
-            case 6: p.add(where, reg ? "src_thresh" : "unsrc_thresh", {rmod(), bad ? 0 : (long)r.range(1, 3) * 5, bad ? 0 : (long)r.below(2) * 400000, fl}); break;
+            case 6: {
+                // activity frequency = arg/4: values far apart and values closer than 1.0 to each other (keys that differ only by a fraction)
+                static const long freqs[] = {0, 400000, 1, 2, 8, 10, 11};
+                long fq = camp == "C09" || camp == "C04" ? freqs[r.below(7)] : (long)r.below(2) * 400000;
+                p.add(where, reg ? "src_thresh" : "unsrc_thresh", {rmod(), bad ? 0 : (long)r.range(1, 3) * 5, bad ? 0 : fq, fl});
+                break;
+            }
             }
             break;
         }
